@@ -289,6 +289,7 @@ static J listing_deep(const rt::instruction_set& set);
 
 static std::string float_bits(float f) { uint32_t u; memcpy(&u, &f, 4); char b[16]; snprintf(b, sizeof b, "%08x", u); return b; }
 
+static size_t g_value_json_nodes = 0;   // per command: a cyclic value with fan-out >= 2 must not be unfolded 2^40 times
 static J value_json(const rt::value& v, int depth)
 {
     // structural rendering of a value, independent of to_string_sqf
@@ -296,7 +297,7 @@ static J value_json(const rt::value& v, int depth)
     if (v.empty()) { o.set("t", "nil"); return o; }
     auto tname = std::string(v.type().to_string());
     o.set("t", tname);
-    if (depth > 40) { o.set("deep", true); return o; }
+    if (depth > 40 || ++g_value_json_nodes > 200000) { o.set("deep", true); return o; }
     if (auto s = v.data_try<sqf::types::d_scalar>()) { o.set("bits", float_bits(s->value())); o.set("v", (double)s->value()); }
     else if (auto b = v.data_try<sqf::types::d_boolean>()) { o.set("v", b->value()); }
     else if (auto st = v.data_try<sqf::types::d_string>()) { o.set("v", st->value()); }
@@ -526,6 +527,7 @@ static J do_parse_and_load(VM& vm, const J& cmd, bool& ok, J& reply)
 
 static J handle(const J& cmd)
 {
+    g_value_json_nodes = 0;
     std::string op = cmd.str("op");
     J reply = J::obj();
     if (op == "ping") { reply.set("pong", true); return reply; }
